@@ -216,6 +216,11 @@ def _check(mod, meta, prop, tier, seed, repo, jobs, replay, workdir, t0, quiet):
         'known_findings_observed': {m: n for m, (k, n) in seen_known.items()},
         'inconclusive_reasons': inconclusive,
     }
+    try:
+        from . import reach
+        coverage['code_reach'] = reach.merge([r.get('reach') or {} for r in results])
+    except Exception as e:      # evidence only
+        coverage['code_reach'] = {'state': [f'merge failed: {e!r}']}
     ex = meta.get('exhaustive', {}).get(tier)
     if ex:
         coverage['exhaustive_part'] = ex
